@@ -16,6 +16,7 @@ import (
 	"github.com/jirenius/go-res/store"
 	"github.com/jirenius/go-res/store/badgerstore"
 	"github.com/jirenius/keylock"
+	"github.com/jirenius/taskqueue"
 
 	"verif/sim/sched"
 	"verif/sim/simconn"
@@ -143,7 +144,9 @@ func newQuietStdLogger(w *os.File) *logger.StdLogger {
 func setRaceHooks(f func(point, arg string)) {
 	res.VerifHook = f
 	badgerstore.VerifHook = f
+	badger.VerifHook = f
 	keylock.Hook = f
+	taskqueue.Hook = f
 }
 
 //go:norace
